@@ -74,7 +74,7 @@ PROPS["C10"] = {
          "params": {"quick": {"N": 20, "alloc_limit": 255, "lazy_make": 1}, "thorough": {"N": 26, "alloc_limit": 255, "lazy_make": 1}},
          "flags": {"quick": ["-maxlen", "256", "-maxpaths", "200000"], "thorough": ["-maxlen", "256", "-maxpaths", "1000000"]}},
         {"pkg": "types", "gen": TYPES_GEN, "run": "^VH_C10_DEC_(Transaction|V1Block)$",
-         "params": {"quick": {"N": 100, "alloc_limit": 255, "lazy_make": 1}, "thorough": {"N": 140, "alloc_limit": 255, "lazy_make": 1}},
+         "params": {"quick": {"N": 100, "alloc_limit": 255, "lazy_make": 1}, "thorough": {"N": 110, "alloc_limit": 255, "lazy_make": 1}},
          "flags": {"quick": ["-maxlen", "256", "-maxpaths", "200000"], "thorough": ["-maxlen", "256", "-maxpaths", "1000000"]}},
         {"pkg": "types", "gen": TYPES_GEN, "run": "^VH_C10_DEC_V2Transaction$",
          "params": {"quick": {"N": 24, "alloc_limit": 255, "lazy_make": 1}, "thorough": {"N": 40, "alloc_limit": 255, "lazy_make": 1}},
@@ -83,7 +83,7 @@ PROPS["C10"] = {
          "params": {"quick": {"N": 40, "alloc_limit": 255, "lazy_make": 1}, "thorough": {"N": 64, "alloc_limit": 255, "lazy_make": 1}},
          "flags": {"quick": ["-maxlen", "256", "-maxpaths", "200000"], "thorough": ["-maxlen", "256", "-maxpaths", "400000"]}},
         {"pkg": "types", "harness": ["harness/c10/c10_multiproof.go"], "run": "^VH_C10_MultiproofDecode$",
-         "params": {"quick": {"maxtxns": 1, "maxleaves": 8, "maxhashes": 4}, "thorough": {"maxtxns": 2, "maxleaves": 8, "maxhashes": 4}},
+         "params": {"quick": {"maxtxns": 1, "maxleaves": 8, "maxhashes": 4}, "thorough": {"maxtxns": 1, "maxleaves": 8, "maxhashes": 4}},
          "flags": {"quick": ["-timeout", "3000", "-maxpaths", "200000"], "thorough": ["-timeout", "5000", "-maxpaths", "1000000"]},
          "must_reach": {"VH_C10_MultiproofDecode": ["accepted", "rejected"]}},
         {"pkg": "consensus", "harness": C10_VH, "run": "^VH_C10_CoveredFieldsInRange$", "params": {"quick": {}, "thorough": {}},
@@ -140,8 +140,8 @@ PROPS["C10"] = {
     ],
     "tv_runs": {"quick": 0, "thorough": 0},
     "bounds": {"quick": "validators: transaction shapes with the component groups listed in evidence.coverage.runs (1 element per populated component; v1 masks 643/519/769/16, v2 masks 3/12/16/32/128/769), fully symbolic contents, state, network parameters and supplement; decoders: arbitrary input of N bytes, N=40 (policy-bearing objects 20, v1 Transaction/V1Block 100, V2Transaction 24); every loop unwound to completion (path/loop budgets are unwinding assertions); allocation per site <= max(N,255) elements; multiproof block body: the real wire form of 1 v2 transaction (1 siacoin input, optional contract revision, arbitrary 64-bit leaf indices) + arbitrary leaf count < 8 + 0..3 arbitrary proof hashes decodes without panic; two v2 transactions of one block where the second spends an ephemeral siacoin parent with an arbitrary ID (incl. the ID of an attestation or output created by the first), both eras of the ephemeral-output fork: no panic in validation or application; coveredFieldsInRange <=> every index list is below the length of its own field (10 fields of pairwise different lengths)",
-               "thorough": "N=64 / 26 / 140 / 40; multiproof with 2 transactions; ephemeral siafund parents and contract-creating first transactions"},
-    "outside": ["inputs longer than N", "JSON/text Unmarshal entry points (hex text forms: see C20)", "multiproofs with more than 2 transactions or leaf counts >= 8, arbitrary bytes fed to the V2Block/multiproof decoders (the transaction part is a real encoding with symbolic field values)"],
+               "thorough": "N=64 / 26 / 110 / 40 (v1 Transaction at N=120 did not finish in 200 s, at N=140 not in 35 minutes); ephemeral siafund parents and contract-creating first transactions; three more v1 and two more v2 component masks"},
+    "outside": ["inputs longer than N", "JSON/text Unmarshal entry points (hex text forms: see C20)", "multiproofs with more than 1 transaction or leaf counts >= 8, arbitrary bytes fed to the V2Block/multiproof decoders (the transaction part is a real encoding with symbolic field values)"],
     "stubs": ["fmt.Errorf/Sprintf: opaque values (formatting code not executed)"],
     "assumptions": COMMON_ASSUME,
 }
